@@ -84,7 +84,7 @@ def result_reports_the_recorded_outcome(ctx):
     ctx.ob(d, "done() <=> status in {'failed', 'cancelled', 'success'}", ok, f'done() is {txt}')
 
 
-@rule('C04.i', ['C04', 'C05', 'C10', 'C11', 'C08'], floor=5)
+@rule('C04.i', ['C04', 'C05', 'C10', 'C11', 'C08', 'C12'], floor=5)
 def submitted_futures_are_tracked_and_tagged(ctx):
     """TransferCoordinator.submit hands the task and the tag to the executor it was given,
     records the returned future as associated (under the futures lock) before returning it,
@@ -151,6 +151,18 @@ def submitted_futures_are_tracked_and_tagged(ctx):
                 ok = bool(pn) and len(nested) == 1 and _wrapper_calls(nested[0], pn[0]) and len(rets) == 1 and \
                     ((isinstance(rets[0], ast.Name) and isinstance(nested[0], ast.FunctionDef) and rets[0].id == nested[0].name) or rets[0] is nested[0])
     ctx.ob(adc, 'the registered wrapper calls fn()', ok, 'the callback itself must run')
+    # ... and nothing that can raise runs before it: the wrapper is the only way the permit release / association removal happens
+    wrappers = [n for n in ast.walk(adc.node) if isinstance(n, (ast.FunctionDef, ast.Lambda)) and n is not adc.node]
+    for wn in wrappers:
+        calls = sorted([c for c in ast.walk(wn) if isinstance(c, ast.Call)], key=lambda c: getattr(c, '_pos', 0))
+        fn_calls = [c for c in calls if isinstance(c.func, ast.Name) and c.func.id == adc.params[1]]
+        if not fn_calls:
+            continue
+        before = [c for c in calls if getattr(c, '_pos', 0) < getattr(fn_calls[0], '_pos', 0) and not (dotted(c.func) or '').startswith('logger.')]
+        guarded = q.guards(fn_calls[0])
+        guarded = [g_ for g_ in guarded if isinstance(g_[0], ast.AST) and any(g_[0] is x for x in ast.walk(wn))]
+        ctx.ob(adc, 'fn() is the first thing the wrapper does, unconditionally', not before and not guarded,
+               f'{[short(c, 40) for c in before]} runs before fn(): if it raises (e.g. future.result() of a failed task) the callback - the semaphore release - never runs and the permit is lost')
 
 
 # who may hand work to an executor directly (function -> receiver text): everything else goes through
